@@ -268,7 +268,8 @@ Proof. destruct l as [[R n] ts]. unfold good_loc, loc_covers. cbn [fst snd]. int
       rewrite lookup_app, Hl in Hd. apply walk_dirs_complete; auto. cbn [skipped].
       rewrite last_app_ne in Hp by discriminate. apply negb_true_iff in Hp. exact Hp. Qed.
 
-Definition all_stems (T:node) (es:list entry) : list str := map (fun e : entry => stem (fst e)) (file_entries T es).
+Definition all_stems (T:node) (es:list entry) : list str :=
+  map (fun e : entry => stem (fst e)) (filter (fun e : entry => py_suffixed (fst e)) (file_entries T es)).
 
 Lemma here_In T sl d es le : In le (here T sl (d, es)) <->
   (exists nm c, le = (d, nm, c) /\ In (nm, c) es /\ is_dirlike T c = false)
@@ -287,11 +288,11 @@ Proof. unfold here, files_here, pycache_here, all_stems. cbn [fst snd]. rewrite 
     + right. rewrite Hf. cbv zeta. apply in_map_iff. exists (nm, c). split; auto. apply filter_In. split; auto.
       cbv beta. cbn [fst]. apply negb_true_iff. exact H2. Qed.
 
-Lemma version_stems_sub T sl D es s : lookup T D = Some (Dir es) ->
-  mem_str s (version_file_stems T sl D) = true -> mem_str s (all_stems T es) = true.
+Lemma version_stems_sub T D es s : lookup T D = Some (Dir es) ->
+  mem_str s (version_file_stems T D) = true -> mem_str s (all_stems T es) = true.
 Proof. intros Hl. unfold version_file_stems, all_stems, file_entries. rewrite Hl. rewrite !mem_str_In, !in_map_iff.
-  intros [e [He Hin]]. exists e. split; auto. apply filter_In in Hin. apply filter_In. destruct Hin as [H1 H2].
-  apply andb_true_iff in H2. tauto. Qed.
+  intros [e [He Hin]]. exists e. split; auto. apply filter_In in Hin. destruct Hin as [H1 H2].
+  rewrite !andb_true_iff in H2. destruct H2 as [[H2 H3] _]. apply filter_In. split; auto. apply filter_In. auto. Qed.
 
 Lemma removelast_snoc {A} (l:list A) x : removelast (l ++ [x]) = l.
 Proof. rewrite removelast_app by discriminate. simpl. apply app_nil_r. Qed.
@@ -306,18 +307,26 @@ Proof. intros Hg Hl Hin. unfold list_py_dir in Hin. apply in_flat_map in Hin. de
   - assert (Hl2 : lookup T (d ++ [s_pycache]) = Some (Dir ces)) by (rewrite lookup_app, Hd; simpl; rewrite Hf; reflexivity).
     split; [eapply all_entries_complete; eauto|]. unfold listed_by. apply orb_true_iff. right. simpl andb.
     destruct (d ++ [s_pycache]) eqn:E; [destruct d; discriminate|]. rewrite <- E. rewrite last_last, removelast_snoc, str_eqb_refl, Hc.
-    simpl. apply negb_true_iff. destruct (mem_str (stem nm) (version_file_stems T true d)) eqn:M; auto.
-    rewrite (version_stems_sub T true d es _ Hd M) in H2. discriminate. Qed.
+    simpl. apply negb_true_iff. destruct (mem_str (stem nm) (version_file_stems T d)) eqn:M; auto.
+    rewrite (version_stems_sub T d es _ Hd M) in H2. discriminate. Qed.
 
-Lemma no_foreign_shadow_use T D es ces nm c : no_foreign_shadow T = true -> lookup T D = Some (Dir es) ->
+(* names inside __pycache__ are not hidden, so their first dot-component is not empty *)
+Definition pyc_names_ok (T:node) : Prop := forall D es ces nm c, lookup T D = Some (Dir es) ->
+  find_entry s_pycache es = Some (Dir ces) -> In (nm, c) ces -> stem nm <> [].
+Lemma lock_stem nm : prefixb s_lock nm = true -> stem nm = [].
+Proof. destruct nm as [|a r]; [reflexivity|]. unfold s_lock. cbn [prefixb stem]. destruct (N.eqb_spec 46 a) as [<-|]; [reflexivity|discriminate]. Qed.
+Lemma pyc_stems_agree T D es ces nm c : pyc_names_ok T -> lookup T D = Some (Dir es) ->
   find_entry s_pycache es = Some (Dir ces) -> In (nm, c) ces ->
-  mem_str (stem nm) (version_file_stems T true D) = false -> mem_str (stem nm) (all_stems T es) = false.
-Proof. intros Hn Hl Hf Hin Hv. unfold no_foreign_shadow in Hn. rewrite forallb_forall in Hn.
-  specialize (Hn (D, es) (all_dirs_complete T [] D es Hl)). cbn [fst snd] in Hn. rewrite Hf in Hn.
-  rewrite forallb_forall in Hn. specialize (Hn _ Hin). cbn [fst] in Hn. rewrite Hv, orb_false_r in Hn.
-  apply negb_true_iff in Hn. exact Hn. Qed.
+  mem_str (stem nm) (version_file_stems T D) = false -> mem_str (stem nm) (all_stems T es) = false.
+Proof. intros Hp Hl Hf Hin Hv. destruct (mem_str (stem nm) (all_stems T es)) eqn:M; [|reflexivity]. exfalso.
+  unfold all_stems, file_entries in M. apply mem_str_In in M. apply in_map_iff in M. destruct M as [e [He M]].
+  apply filter_In in M. destruct M as [M H2]. apply filter_In in M. destruct M as [M H1].
+  assert (Hv' : mem_str (stem nm) (version_file_stems T D) = true); [|congruence].
+  unfold version_file_stems. rewrite Hl. apply mem_str_In. apply in_map_iff. exists e. split; auto. apply filter_In. split; auto.
+  rewrite H1, H2. cbn [andb]. destruct (prefixb s_lock (fst e)) eqn:L; [|reflexivity]. exfalso.
+  apply lock_stem in L. rewrite L in He. apply (Hp D es ces nm c Hl Hf Hin). auto. Qed.
 
-Lemma list_complete T sl rec (l:rloc) le : good_names T -> good_loc T l -> (sl = true -> no_foreign_shadow T = true) ->
+Lemma list_complete T sl rec (l:rloc) le : good_names T -> good_loc T l -> pyc_names_ok T ->
   In le (all_entries T) -> listed_by T sl rec le l = true ->
   In le (list_py_dir T sl rec (snd l) (fst (fst l)) (snd (fst l))).
 Proof. intros Hg Hl Hns Hin Hlb. destruct le as [[d nm] c]. destruct (all_entries_sound T d nm c Hg Hin) as [es (Hd & He & _)].
@@ -335,7 +344,7 @@ Proof. intros Hg Hl Hns Hin Hlb. destruct le as [[d nm] c]. destruct (all_entrie
     + apply (listed_dirs_spec T rec l _ es0 Hg Hl). auto.
     + apply here_In. right. split; auto. exists es, nm, c. repeat split; auto.
       * rewrite Ed at 1. reflexivity.
-      * eapply no_foreign_shadow_use; eauto. Qed.
+      * eapply pyc_stems_agree; eauto. Qed.
 
 (* ------------------------------------------------------------------ configured locations resolve to real directories *)
 Lemma resolve_from_good T : forall p cur n R m, lookup T cur = Some n -> resolve_from T cur n p = Some (R, m) -> lookup T R = Some m.
@@ -362,7 +371,7 @@ Proof. intros Hg Hl Hin. unfold listing in Hin. apply in_flat_map in Hin. destru
   destruct (list_sound T sl rec l le Hg (Hl _ Hlin) Hin) as [H1 H2]. split; auto.
   unfold entry_listed. apply existsb_exists. eauto. Qed.
 Lemma listing_complete T sl rec locs le : good_names T -> (forall l, In l locs -> good_loc T l) ->
-  (sl = true -> no_foreign_shadow T = true) ->
+  pyc_names_ok T ->
   In le (all_entries T) -> entry_listed T sl rec locs le = true -> In le (listing T sl rec locs).
 Proof. intros Hg Hl Hns Hin He. unfold entry_listed in He. apply existsb_exists in He. destruct He as [l [Hlin He]].
   unfold listing. apply in_flat_map. exists l. split; auto. apply list_complete; auto. Qed.
@@ -388,7 +397,7 @@ Proof. intros Hg Hs Hf Ht. destruct f as [[d nm] c]. unfold real_of. rewrite Hs.
   rewrite (all_entries_lookup T d nm c Hg Hf). rewrite removelast_snoc, last_last. reflexivity. Qed.
 
 Lemma reals_file_iff T sl rec locs f : good_names T -> (forall l, In l locs -> good_loc T l) ->
-  (sl = true -> no_foreign_shadow T = true) -> is_file f = true ->
+  pyc_names_ok T -> is_file f = true ->
   (In f (map (real_of T) (listing T sl rec locs)) <-> In f (all_entries T) /\ reached T sl rec locs f = true).
 Proof. intros Hg Hl Hns Hf. split.
   - intros Hin. apply in_map_iff in Hin. destruct Hin as [le [Hr Hin]].
@@ -557,7 +566,7 @@ Lemma reals_in_entries y : In y reals -> exists le, In le (all_entries T) /\ y =
 Proof. intros Hy. apply in_map_iff in Hy. destruct Hy as [le [<- Hin]].
   destruct (listing_sound T sl rec locs le Hg Hl Hin) as [Ha _]. eauto. Qed.
 
-Lemma expected_in_uniq f : (sl = true -> no_foreign_shadow T = true) ->
+Lemma expected_in_uniq f : pyc_names_ok T ->
   In f (expected_files T sl rec locs) -> In f uniq /\ exists k, from_filename T sl f = load_python_file (snd (fst f)) k (snd f).
 Proof. intros Hns. unfold expected_files. rewrite filter_In. intros [Ha Hw]. unfold wanted in Hw.
   apply andb_true_iff in Hw. destruct Hw as [Hw Hr]. apply andb_true_iff in Hw. destruct Hw as [Hw Hs].
@@ -567,7 +576,7 @@ Proof. intros Hns. unfold expected_files. rewrite filter_In. intros [Ha Hw]. unf
     + intros y Hy Hp. destruct (reals_in_entries y Hy) as [le [Hle ->]]. apply real_of_path_inj; auto.
   - destruct f as [[d nm] c]. cbn [fst snd] in *. rewrite from_filename_spec, Hn, Hs. simpl. eauto. Qed.
 
-Lemma exactly_once_files : (sl = true -> no_foreign_shadow T = true) ->
+Lemma exactly_once_files : pyc_names_ok T ->
   (forall f, In f uniq -> from_filename T sl f <> Fail) ->
   Permutation (loaded_files T sl uniq) (expected_files T sl rec locs).
 Proof. intros Hns Hnf. apply NoDup_Permutation.
@@ -584,7 +593,8 @@ End ExactlyOnce.
 
 (* ------------------------------------------------------------------ what wf_tree gives *)
 Definition entry_ok (T:node) (inpyc:bool) (e:entry) : bool :=
-  nonempty (fst e) && negb (weird_name (fst e)) && (if str_eqb (fst e) s_pycache then is_dir (snd e) else true)
+  nonempty (fst e) && negb (weird_name (fst e)) && (negb inpyc || negb (prefixb [46] (fst e)))
+  && (if str_eqb (fst e) s_pycache then is_dir (snd e) else true)
   && match snd e with
      | File _ => true
      | Link t => match lookup T t with Some (File _) => true | Some (Dir _) => negb inpyc | _ => false end
@@ -593,7 +603,7 @@ Definition entry_ok (T:node) (inpyc:bool) (e:entry) : bool :=
 
 Lemma wf_node_Dir T inpyc ispyc es : wf_node T inpyc ispyc (Dir es) =
   negb inpyc && nodup_str (map fst es) &&
-  forallb (fun e : entry => nonempty (fst e) && negb (weird_name (fst e))
+  forallb (fun e : entry => nonempty (fst e) && negb (weird_name (fst e)) && (negb ispyc || negb (prefixb [46] (fst e)))
                             && (if str_eqb (fst e) s_pycache then is_dir (snd e) else true)
                             && wf_node T ispyc (str_eqb (fst e) s_pycache) (snd e)) es.
 Proof. cbn [wf_node]. f_equal. induction es as [|[nm c] r IH]; [reflexivity|]. cbn [forallb fst snd]. rewrite <- IH. reflexivity. Qed.
@@ -615,7 +625,7 @@ Proof. induction n as [c|t|es0 IH] using node_ind'; intros a d0 H d es e Hd He; 
   rewrite wf_node_Dir in H. apply andb_true_iff in H. destruct H as [_ H3]. rewrite forallb_forall in H3.
   rewrite all_dirs_Dir in Hd. destruct Hd as [Hd|Hd].
   - inversion Hd; subst. specialize (H3 _ He). unfold entry_ok.
-    apply andb_true_iff in H3. destruct H3 as [H3 H4]. rewrite H3. simpl. destruct e as [nm c]. cbn [fst snd] in *.
+    apply andb_true_iff in H3. destruct H3 as [H3 H4]. apply andb_true_iff. split; [exact H3|]. destruct e as [nm c]. cbn [fst snd] in *.
     destruct c as [c0|es'|t]; auto.
     + rewrite wf_node_Dir in H4. apply andb_true_iff in H4. destruct H4 as [H4 _]. apply andb_true_iff in H4. tauto.
   - apply in_flat_map in Hd. destruct Hd as [[nm c] [Hc Hd]]. cbn [fst snd] in Hd. specialize (H3 _ Hc). cbn [fst snd] in H3.
@@ -629,6 +639,15 @@ Lemma wf_tree_entries T d nm c : wf_tree T = true -> In (d, nm, c) (all_entries 
 Proof. intros H Hin. apply all_entries_In in Hin. destruct Hin as [es [Hd He]].
   apply (wf_node_entries T T false [] H d es (nm, c) Hd He). Qed.
 
+Lemma wf_tree_pyc_names T : wf_tree T = true -> pyc_names_ok T.
+Proof. intros Hwf D es ces nm c Hl Hf Hin Hs.
+  assert (Hl2 : lookup T (D ++ [s_pycache]) = Some (Dir ces)) by (rewrite lookup_app, Hl; simpl; rewrite Hf; reflexivity).
+  pose proof (all_entries_complete T _ nm c ces Hl2 Hin) as Ha.
+  pose proof (wf_tree_entries T _ _ _ Hwf Ha) as Hok. unfold entry_ok in Hok. cbn [fst snd] in Hok.
+  rewrite last_last, str_eqb_refl in Hok. rewrite !andb_true_iff in Hok. destruct Hok as [[[[Hne _] Hh] _] _].
+  simpl in Hh. apply negb_true_iff in Hh. destruct nm as [|a r]; [discriminate|]. cbn [stem] in Hs. cbn [prefixb] in Hh.
+  destruct (N.eqb_spec a 46) as [->|Hn]; [discriminate|discriminate]. Qed.
+
 (* ------------------------------------------------------------------ load_from: exactly once *)
 Lemma load_from_Ok T sl rec locs ob : load_from T sl rec locs = Ok ob ->
   listing_bad sl rec locs = false /\
@@ -639,10 +658,10 @@ Proof. unfold load_from. destruct (listing_bad sl rec locs); [discriminate|].
   destruct (collect _) as [ids|] eqn:E; [|discriminate]. intros [= <-]. cbn [o_ids o_dups o_twice]. auto. Qed.
 
 Theorem exactly_once T sl rec ps ob :
-  wf_tree T = true -> (sl = true -> no_foreign_shadow T = true) ->
+  wf_tree T = true ->
   load_from T sl rec (flat_map (resolve_loc T) ps) = Ok ob ->
   exists ids, expected_from T sl rec (flat_map (resolve_loc T) ps) = Ok ids /\ Permutation (o_ids ob) ids.
-Proof. intros Hwf Hns Hld. apply wf_tree_good in Hwf. apply load_from_Ok in Hld. destruct Hld as (_ & Hc & _).
+Proof. intros Hwf Hld. pose proof (wf_tree_pyc_names T Hwf) as Hns. apply wf_tree_good in Hwf. apply load_from_Ok in Hld. destruct Hld as (_ & Hc & _).
   apply collect_ok in Hc. destruct Hc as [Hids Hnf].
   pose proof (exactly_once_files T sl rec _ Hwf (resolve_locs_good T ps) Hns Hnf) as HP.
   exists (map idN (expected_files T sl rec (flat_map (resolve_loc T) ps))). split.
@@ -706,7 +725,7 @@ Proof. intros Hwf Hl. destruct (listing_bad sl rec locs) eqn:E; [|reflexivity]. 
   pose proof (all_entries_complete T d s_pycache c es Hd (find_entry_In _ _ _ Ef)) as Hin.
   pose proof (wf_tree_entries T _ _ _ Hwf Hin) as Hok. unfold entry_ok in Hok. cbn [fst snd] in Hok.
   rewrite str_eqb_refl in Hok. destruct c as [c0|es'|t]; try discriminate;
-  rewrite !andb_true_iff in Hok; simpl in Hok; destruct Hok as [[[_ _] Hok] _]; discriminate. Qed.
+  rewrite !andb_true_iff in Hok; simpl in Hok; destruct Hok as [[[[_ _] _] Hok] _]; discriminate. Qed.
 
 Lemma listed_not_dirlike_or_pyc T sl rec locs d nm c : entry_listed T sl rec locs (d, nm, c) = true ->
   is_dirlike T c = false \/ str_eqb (last d []) s_pycache = true.
@@ -754,7 +773,7 @@ Proof. intros locs Hwf Hnp Hids Hin. pose proof (wf_tree_good T Hwf) as Hg.
   specialize (Hids _ Hexp). unfold file_id in Hids. cbn [snd] in Hids. unfold is_file in Hfile. cbn [snd] in Hfile.
   destruct c as [[id|]|es|t]; try discriminate; try congruence.
   pose proof (wf_tree_entries T _ _ _ Hwf Ha) as Hok. unfold entry_ok in Hok. cbn [fst snd] in Hok.
-  rewrite !andb_true_iff in Hok. destruct Hok as [[[_ Hw] _] _]. apply negb_true_iff in Hw.
+  rewrite !andb_true_iff in Hok. destruct Hok as [[[[_ Hw] _] _] _]. apply negb_true_iff in Hw.
   assert (Hk : kind_of nm <> KO).
   { intro Hk. unfold kind_of in Hk. destruct (suffixb s_py nm) eqn:Hp; [discriminate|]. destruct (suffixb s_pyc nm) eqn:Hc; [discriminate|].
     unfold is_rev_name in Hn. rewrite Hp, Hc in Hn. cbn [orb] in Hn. apply andb_true_iff in Hn. destruct Hn as [Hpre Ho].
@@ -780,30 +799,7 @@ Lemma load_from_cases T sl rec locs : (exists ob, load_from T sl rec locs = Ok o
 Proof. unfold load_from. destruct (listing_bad sl rec locs); auto. destruct (collect _); eauto. Qed.
 
 (* ------------------------------------------------------------------ the property on the proved class *)
-Lemma opt_path_eqb_eq a b : opt_path_eqb a b = true -> a = b.
-Proof. destruct a, b; simpl; try discriminate; auto. intros H. apply path_eqb_eq in H. congruence. Qed.
-Lemma list_eqb_opt_eq a b : list_eqb opt_path_eqb a b = true -> a = b.
-Proof. revert b; induction a as [|x a IH]; destruct b as [|y b]; simpl; try discriminate; auto.
-  rewrite andb_true_iff. intros [H1 H2]. apply opt_path_eqb_eq in H1. apply IH in H2. congruence. Qed.
 
-Theorem main i : inclass_C19 i = true -> C19_holds i (load_revisions i).
-Proof. unfold inclass_C19. rewrite !andb_true_iff. intros [[Hwf Hc] Hs].
-  assert (Hns : i_sl i = true -> no_foreign_shadow (i_tree i) = true).
-  { intros E. rewrite E in Hs. simpl in Hs. apply andb_true_iff in Hs. tauto. }
-  assert (Hnp : i_sl i = true -> no_live_pyo (i_tree i) = true).
-  { intros E. rewrite E in Hs. simpl in Hs. apply andb_true_iff in Hs. tauto. }
-  unfold clean_config in Hc. unfold C19_holds, load_revisions, expected.
-  destruct (split_locations (i_sep i) (i_locs i)) as [vl|e]; destruct (spec_locations (i_sep i) (i_locs i)) as [ps|e']; try discriminate.
-  - apply andb_true_iff in Hc. destruct Hc as [Hc _]. apply list_eqb_opt_eq in Hc. rewrite Hc.
-    destruct (expected_from (i_tree i) (i_sl i) (i_rec i) (flat_map (resolve_loc (i_tree i)) ps)) as [ids|e] eqn:He.
-    + destruct (no_error _ _ _ _ _ Hwf Hnp He) as [ob Hob]. rewrite Hob.
-      destruct (exactly_once _ _ _ _ _ Hwf Hns Hob) as [ids' [He' HP]]. rewrite He in He'. inversion He'; subst ids'.
-      split; auto. intros x. apply load_from_Ok in Hob. destruct Hob as (_ & _ & Hd & _). rewrite Hd, duplicate_id.
-      f_equal. unfold count. apply (Permutation_count_occ N.eq_dec); auto.
-    + destruct (load_from_cases (i_tree i) (i_sl i) (i_rec i) (flat_map (resolve_loc (i_tree i)) ps)) as [[ob Hob]|Herr].
-      * destruct (exactly_once _ _ _ _ _ Hwf Hns Hob) as [ids' [He' _]]. congruence.
-      * rewrite Herr. unfold expected_from in He. destruct (ids_of _); [discriminate|]. congruence.
-  - destruct e, e'; try discriminate; reflexivity. Qed.
 
 (* ------------------------------------------------------------------ a source wins over its compiled forms *)
 Theorem source_wins T sl rec ps ob :
@@ -834,17 +830,17 @@ Lemma listing_incl T sl rec l1 l2 : incl l2 l1 -> incl (listing T sl rec l2) (li
 Proof. intros Hi x Hx. unfold listing in *. apply in_flat_map in Hx. destruct Hx as [l [Hl Hx]]. apply in_flat_map. exists l. split; auto. Qed.
 
 Theorem dedupe_locations T sl rec ps ps2 ob ob' :
-  wf_tree T = true -> (sl = true -> no_foreign_shadow T = true) -> incl ps2 ps ->
+  wf_tree T = true -> incl ps2 ps ->
   load_from T sl rec (flat_map (resolve_loc T) ps) = Ok ob ->
   load_from T sl rec (flat_map (resolve_loc T) (ps ++ ps2)) = Ok ob' ->
   Permutation (o_ids ob) (o_ids ob')
   /\ (length (listing T sl rec (flat_map (resolve_loc T) ps2)) <= N.to_nat (o_twice ob'))%nat.
-Proof. intros Hwf Hns Hi H1 H2.
+Proof. intros Hwf Hi H1 H2.
   assert (Hi' : incl (flat_map (resolve_loc T) ps2) (flat_map (resolve_loc T) ps)).
   { intros x Hx. apply in_flat_map in Hx. destruct Hx as [p [Hp Hx]]. apply in_flat_map. exists p. split; auto. }
   split.
-  - destruct (exactly_once T sl rec ps ob Hwf Hns H1) as [ids [E1 P1]].
-    destruct (exactly_once T sl rec (ps ++ ps2) ob' Hwf Hns H2) as [ids' [E2 P2]].
+  - destruct (exactly_once T sl rec ps ob Hwf H1) as [ids [E1 P1]].
+    destruct (exactly_once T sl rec (ps ++ ps2) ob' Hwf H2) as [ids' [E2 P2]].
     rewrite flat_map_app in E2. unfold expected_from in E1, E2. rewrite (expected_files_app _ _ _ _ _ Hi') in E2.
     rewrite E2 in E1. inversion E1; subst. eapply Permutation_trans; [exact P1|apply Permutation_sym; exact P2].
   - apply load_from_Ok in H2. destruct H2 as (_ & _ & _ & Ht). rewrite Ht, Nat2N.id. rewrite flat_map_app, listing_app, map_app, !app_length, !map_length.
@@ -861,16 +857,11 @@ Lemma split_on_fields c s : split_on c s = fields (fun x => N.eqb x c) s.
 Proof. induction s as [|x r IH]; simpl; [reflexivity|]. rewrite IH. reflexivity. Qed.
 Lemma fields_ext f g s : (forall x, f x = g x) -> fields f s = fields g s.
 Proof. intros H. induction s as [|x r IH]; simpl; [reflexivity|]. rewrite H, IH. reflexivity. Qed.
-Lemma filter_nonempty_id (l:list str) : ~ In [] l -> filter nonempty l = l.
-Proof. induction l as [|x r IH]; simpl; intros H; [reflexivity|]. destruct x as [|a x]; [tauto|]. simpl. f_equal. tauto. Qed.
-Lemma strip_nil : strip [] = [].
-Proof. reflexivity. Qed.
-Lemma filter_strip (L:list str) : filter nonempty (map strip L) = filter nonempty (map strip (filter nonempty L)).
-Proof. induction L as [|x r IH]; simpl; [reflexivity|]. destruct x as [|a x]; simpl; [exact IH|]. rewrite IH. reflexivity. Qed.
+Lemma filter_strip (L:list str) :
+  filter nonempty (map strip L) = map strip (filter (fun x => nonempty (strip x)) L).
+Proof. induction L as [|x r IH]; cbn [map filter]; [reflexivity|]. destruct (nonempty (strip x)); cbn [map]; rewrite IH; reflexivity. Qed.
 
 Definition is_legacy_delim (c:N) : bool := N.eqb c 32 || N.eqb c 44.
-Lemma filter_cons_head x (l:list str) : l <> [] -> filter nonempty (cons_head x l) = (x :: hd [] l) :: filter nonempty (tl l).
-Proof. destruct l as [|p ps]; [tauto|]. reflexivity. Qed.
 Lemma split_legacy_fields s :
   (exists p ps ps', split_legacy false s = p :: ps /\ fields is_legacy_delim s = p :: ps' /\ filter nonempty ps = filter nonempty ps')
   /\ filter nonempty (split_legacy true s) = filter nonempty (fields is_legacy_delim s).
@@ -885,22 +876,43 @@ Proof. induction s as [|x r [(p & ps & ps' & E1 & E2 & E3) IH2]]; cbn [split_leg
       * assert (Hd : is_legacy_delim x = false) by (unfold is_legacy_delim; rewrite Es, Ec; reflexivity). rewrite Hd.
         rewrite E1, E2. cbn [cons_head]. split; [exists (x :: p), ps, ps'; auto|]. simpl. rewrite E3. reflexivity. Qed.
 
-Lemma split_char_clean c s : ~ In [] (map strip (filter nonempty (split_on c s))) ->
-  filter nonempty (map strip (fields (N.eqb c) s)) = map strip (filter nonempty (split_on c s)).
-Proof. rewrite split_on_fields. intros H. rewrite (fields_ext (N.eqb c) (fun x => N.eqb x c)) by (intros; apply N.eqb_sym).
-  rewrite filter_strip. apply filter_nonempty_id. exact H. Qed.
-Lemma version_locations_shape (vl:list str) :
-  match vl with [] => Ok [Some [s_sd; s_versions]] | _ => Ok (A:=list (option path)) (map norm_path vl) end = Ok (version_locations (Some vl)).
-Proof. destruct vl; reflexivity. Qed.
+Lemma split_char_eq c s :
+  filter nonempty (map strip (fields (N.eqb c) s)) = map strip (filter (fun x => nonempty (strip x)) (split_on c s)).
+Proof. rewrite split_on_fields. rewrite (fields_ext (N.eqb c) (fun x => N.eqb x c)) by (intros; apply N.eqb_sym).
+  apply filter_strip. Qed.
+Lemma split_legacy_eq s :
+  filter nonempty (fields (fun c : N => N.eqb c 32 || N.eqb c 44) s) = filter nonempty (split_legacy false s).
+Proof. destruct (split_legacy_fields s) as [(p & ps & ps' & E1 & E2 & E3) _].
+  change (fun c : N => N.eqb c 32 || N.eqb c 44) with is_legacy_delim. rewrite E1, E2. cbn [filter]. rewrite E3. reflexivity. Qed.
 
-Theorem split_clean sp s vl : split_locations sp (Some s) = Ok (Some vl) -> ~ In [] vl ->
-  spec_locations sp (Some s) = Ok (version_locations (Some vl)).
-Proof. unfold split_locations, spec_locations. destruct s as [|a s]; [discriminate|]. set (s' := a :: s). clearbody s'.
-  destruct sp; try discriminate; intros [= <-] Hne; unfold spec_split;
-    try (cbn [sep_char]; rewrite (split_char_clean _ _ Hne); destruct (map strip _); reflexivity).
-  destruct (split_legacy_fields s') as [(p & ps & ps' & E1 & E2 & E3) _].
-  change (fun c : N => N.eqb c 32 || N.eqb c 44) with is_legacy_delim.
-  rewrite E2. rewrite E1 in Hne. rewrite E1.
-  assert (Hp : p <> []) by (intro; subst; apply Hne; left; auto).
-  destruct p as [|b p]; [tauto|]. cbn [filter nonempty]. rewrite <- E3. rewrite filter_nonempty_id by (intro; apply Hne; right; auto).
-  reflexivity. Qed.
+(* the code's splitting of version_locations is the documented one, for every separator and every string *)
+Theorem split_full sp s :
+  match split_locations sp s, spec_locations sp s with
+  | Ok vl, Ok ps => version_locations vl = ps
+  | Err a, Err b => a = b
+  | _, _ => False
+  end.
+Proof. unfold split_locations, spec_locations. destruct s as [s|]; [|reflexivity]. destruct s as [|a s]; [reflexivity|].
+  set (s' := a :: s). clearbody s'.
+  destruct sp; try reflexivity; unfold spec_split; cbn [sep_char];
+    try (rewrite split_char_eq; destruct (map strip _); reflexivity).
+  rewrite split_legacy_eq. destruct (filter nonempty (split_legacy false s')); reflexivity. Qed.
+
+(* ------------------------------------------------------------------ the property on the proved class *)
+Theorem main i : wf_tree (i_tree i) = true -> (i_sl i = true -> no_live_pyo (i_tree i) = true) ->
+  C19_holds i (load_revisions i).
+Proof. intros Hwf Hnp.
+  unfold C19_holds, load_revisions, expected. pose proof (split_full (i_sep i) (i_locs i)) as Hsp.
+  destruct (split_locations (i_sep i) (i_locs i)) as [vl|e]; destruct (spec_locations (i_sep i) (i_locs i)) as [ps|e']; try tauto.
+  rewrite Hsp.
+  destruct (expected_from (i_tree i) (i_sl i) (i_rec i) (flat_map (resolve_loc (i_tree i)) ps)) as [ids|e] eqn:He.
+    + destruct (no_error _ _ _ _ _ Hwf Hnp He) as [ob Hob]. rewrite Hob.
+      destruct (exactly_once _ _ _ _ _ Hwf Hob) as [ids' [He' HP]]. rewrite He in He'. inversion He'; subst ids'.
+      split; auto. intros x. apply load_from_Ok in Hob. destruct Hob as (_ & _ & Hd & _). rewrite Hd, duplicate_id.
+      f_equal. unfold count. apply (Permutation_count_occ N.eq_dec); auto.
+    + destruct (load_from_cases (i_tree i) (i_sl i) (i_rec i) (flat_map (resolve_loc (i_tree i)) ps)) as [[ob Hob]|Herr].
+      * destruct (exactly_once _ _ _ _ _ Hwf Hob) as [ids' [He' _]]. congruence.
+      * rewrite Herr. unfold expected_from in He. destruct (ids_of _); [discriminate|]. congruence. Qed.
+Corollary main_inclass i : inclass_C19 i = true -> C19_holds i (load_revisions i).
+Proof. unfold inclass_C19. rewrite !andb_true_iff. intros [[Hwf _] Hs]. apply main; auto.
+  intros E. rewrite E in Hs. exact Hs. Qed.
